@@ -9,7 +9,7 @@ use crate::visit::{first_outside, Slices, veq};
 use serde_json::json;
 use tls_parser::*;
 
-pub const RULE: &str = "reference-encoded SCT lists of 0..40 entries (all 256 versions, random 32-byte log ids, timestamps 0/1/2^63/2^64-1/every single bit/random, extension and signature lengths 0..2000 and boundary sizes up to the enclosing u16, all 65536 algorithm pairs) with trailing bytes; the single-entry parser on two-entry inputs; entry length corrupted beyond the list; list length beyond the input; truncation at every byte of short lists (list length rewritten); every single length-field corruption (0/1/true-1/true+1/max) and byte mutations of list and single-entry encodings followed by SCT-looking bytes, judged structurally (entry k only references bytes inside the k-th declared entry). distinct_nontrivial = distinct (family, #entries class, length classes, corruption, outcome) tuples";
+pub const RULE: &str = "reference-encoded SCT lists of 0..40 entries (all 256 versions, random 32-byte log ids, timestamps 0/1/2^63/2^64-1/every single bit/random, extension and signature lengths 0..2000 and boundary sizes up to the enclosing u16, all 65536 algorithm pairs) with trailing bytes; the single-entry parser on two-entry inputs and on entries of every length class up to 65535 (alone, +1 byte, + another entry); entry length corrupted beyond the list; list headers declaring fewer bytes (0, 1, 2, 3, entry size mod 2^16, ...) than the well-formed entry of up to 2+65535 bytes that follows; list length beyond the input; truncation at every byte of short lists (list length rewritten); every single length-field corruption (0/1/true-1/true+1/max) and byte mutations of list and single-entry encodings followed by SCT-looking bytes, judged structurally (entry k only references bytes inside the k-th declared entry). distinct_nontrivial = distinct (family, #entries class, length classes, corruption, outcome) tuples";
 pub const ASSUMPTIONS: &[&str] = &["slack bytes inside an entry whose declared length exceeds its content are ignored by design and not judged", "error kinds are not judged"];
 
 fn list_bytes(l: &[ASct]) -> W {
@@ -107,6 +107,62 @@ pub fn run(ctx: &mut Ctx) {
         list_case(ctx, &input, &l, w.b.len(), "list");
     });
 
+    // a list header declaring FEWER bytes than the well-formed entry that follows it (entries of every size
+    // class up to 2+65535 bytes, so that the entry's encoded size wraps a u16): the entry lies (partly)
+    // outside the list and must never come back as an SCT; an empty list yields no SCT and stops after its header
+    ctx.floor("short-list-before-entry", 400);
+    ctx.sweep("short-list-before-entry", 64, |ctx, idx| {
+        let mut r = Rng::new(idx ^ 0x5407);
+        let fixed = 1 + 32 + 8 + 2 + 2 + 2;
+        let d: usize = match idx % 8 {
+            0 => 0xFFFE,
+            1 => 0xFFFF,
+            2 => 0xFFFD,
+            3 => 0xFF00,
+            4 => 0x8000,
+            5 => fixed,
+            _ => fixed + r.size(400),
+        };
+        let mut s = gen::sct(&mut r, gen::TINY);
+        let fill = d - fixed;
+        let el = if r.bool() { fill } else { r.usize(0, fill) };
+        s.ext = r.bytes(el);
+        s.sig = r.bytes(fill - el);
+        let mut w = W::new();
+        s.enc(&mut w);
+        let entry = w.b;
+        assert_eq!(entry.len(), 2 + d);
+        let tail = { let k = r.size(6); let mut w = W::new(); for _ in 0..k { gen::sct(&mut r, gen::TINY).enc(&mut w); } w.b };
+        let e = entry.len();
+        let mut ls: Vec<usize> = vec![0, 1, 2, 3, e & 0xffff, (e & 0xffff) + 1, (e + 0xffff) & 0xffff, d, d - 1, e - 1, e / 2, d & 0xff, r.usize(0, e - 1)];
+        ls.retain(|l| *l < e && *l <= 0xffff);
+        ls.dedup();
+        for l in ls {
+            let mut input = vec![(l >> 8) as u8, l as u8];
+            input.extend_from_slice(&entry);
+            input.extend_from_slice(&tail);
+            let got = ctx.guarded("parse_ct_signed_certificate_timestamp_list", &input, || {
+                let r = parse_ct_signed_certificate_timestamp_list(&input);
+                let out = classify(&r);
+                (out, r.as_ref().ok().map(|(_, v)| v.len()))
+            });
+            if let Some((out, n)) = got {
+                ctx.eval();
+                ctx.count("short-list-before-entry");
+                ctx.shape(&("short-list", lc(d), lc(l), out.class()));
+                let bad = match n {
+                    None => l == 0, // an empty list is a valid list
+                    Some(k) => k != 0 || !out.rem_is_suffix(&input, 2 + l),
+                };
+                if bad {
+                    ctx.violation(
+                        format!("c14:list:short-list-before-entry:{}", if n.is_none() { "empty-list-rejected" } else if n != Some(0) { "entry-outside-list-returned" } else { "remainder-wrong" }),
+                        json!({"declared_list_length": l, "entry_encoded_size": e, "entries_returned": n, "outcome": out.show(), "input_hex": hex_short(&input)}),
+                    );
+                }
+            }
+        }
+    });
 
     // lists with the MAXIMUM number of entries the u16 list length allows (all-minimal entries), and around it
     ctx.sweep("max-entry-count", 6, |ctx, idx| {
@@ -186,6 +242,48 @@ pub fn run(ctx: &mut Ctx) {
                 ctx.eval();
                 if r2.is_ok() {
                     ctx.violation("c14:single:prefix-accepted".into(), json!({"cut": cut, "input_hex": hex_short(&input[..cut])}));
+                }
+            }
+        }
+    });
+
+    // the single-entry parser over every entry-length class up to the u16 maximum (an entry on its own may be
+    // 65534 or 65535 bytes long, which no list can hold), followed by nothing / one byte / another entry
+    ctx.floor("single-sizes.ok", 60);
+    ctx.sweep("single-sizes", 24, |ctx, idx| {
+        let mut r = Rng::new(idx ^ 0x51_2E);
+        let fixed = 1 + 32 + 8 + 2 + 2 + 2;
+        let d: usize = [fixed, fixed + 1, 255, 256, 257, 0x7fff, 0x8000, 0x8001, 0xfffc, 0xfffd, 0xfffe, 0xffff][(idx % 12) as usize];
+        let mut s = gen::sct(&mut r, gen::TINY);
+        let fill = d - fixed;
+        let el = match idx / 12 { 0 => 0, _ => r.usize(0, fill) };
+        s.ext = r.bytes(el);
+        s.sig = r.bytes(fill - el);
+        let mut w = W::new();
+        s.enc(&mut w);
+        let first = w.b.len();
+        for tail in 0..3 {
+            let mut input = w.b.clone();
+            match tail {
+                0 => {}
+                1 => input.push(0xEE),
+                _ => { let mut w2 = W::new(); gen::sct(&mut r, gen::TINY).enc(&mut w2); input.extend(w2.b); }
+            }
+            let got = ctx.guarded("parse_ct_signed_certificate_timestamp", &input, || {
+                let r = parse_ct_signed_certificate_timestamp(&input);
+                let out = classify(&r);
+                (out, r.as_ref().ok().map(|(_, v)| veq(v, &s.expected())))
+            });
+            if let Some((out, eq)) = got {
+                ctx.eval();
+                ctx.shape(&("single-sizes", d, tail, out.class()));
+                if eq == Some(true) && out.rem_is_suffix(&input, first) {
+                    ctx.count("single-sizes.ok");
+                } else {
+                    ctx.violation(
+                        format!("c14:single:sizes:{}", if eq.is_none() { "rejected" } else if eq == Some(false) { "wrong-value" } else { "consumed-not-one-entry" }),
+                        json!({"outcome": out.show(), "declared_entry_length": d, "extensions_len": el, "signature_len": fill - el, "trailing": tail, "input_hex": hex_short(&input)}),
+                    );
                 }
             }
         }
